@@ -125,6 +125,43 @@ pub fn fresh<T: Send>(env: Env, f: impl FnOnce() -> T + Send) -> Result<T, Stopp
     })
 }
 
+thread_local! {
+    /// Set on pool workers: the lace settings this thread was initialised with.
+    static POOL_ENV: std::cell::Cell<Option<(bool, bool)>> = const { std::cell::Cell::new(None) };
+    static FORCE_FRESH: std::cell::Cell<bool> = const { std::cell::Cell::new(false) };
+}
+
+/// Run one case with lace's thread-local state as a new process would have it.
+///
+/// Spawning an OS thread per case does not scale on this machine (thread creation serialises
+/// across cores), so pool workers run cases *in place* after the documented state reset
+/// (`reset_state()`, re-arming the hooks). Because that reset is itself the subject of a property
+/// (C19), nothing is ever reported from an in-place run: callers re-run any disagreeing case
+/// under [`confirm_fresh`], where this function spawns a fresh thread, and only that verdict counts.
+pub fn case<T: Send>(env: Env, f: impl FnOnce() -> T + Send) -> Result<T, Stopped> {
+    let pooled = POOL_ENV.with(|p| p.get());
+    if !FORCE_FRESH.with(|f| f.get()) && pooled == Some((env.stack, env.init_features)) {
+        lace::reset_state();
+        lace::set_minimal(env.minimal);
+        lace::verif::arm(None);
+        guard(f)
+    } else {
+        fresh(env, f)
+    }
+}
+
+/// Run `f` with every [`case`] inside it on a fresh OS thread.
+pub fn confirm_fresh<T>(f: impl FnOnce() -> T) -> T {
+    let old = FORCE_FRESH.with(|c| c.replace(true));
+    let r = f();
+    FORCE_FRESH.with(|c| c.set(old));
+    r
+}
+
+pub fn in_pool() -> bool {
+    POOL_ENV.with(|p| p.get()).is_some() && !FORCE_FRESH.with(|f| f.get())
+}
+
 pub fn threads() -> usize {
     std::env::var("VERIF_THREADS")
         .ok()
@@ -145,6 +182,38 @@ pub fn par_fold<A: Send>(
     init: impl Fn() -> A + Sync,
     body: impl Fn(&mut A, usize) + Sync,
 ) -> Vec<A> {
+    pooled(None, n, chunk, init, body)
+}
+
+/// [`par_fold`] over the indices selected by `flag_of(i) == stack`, once per flag value, on
+/// workers initialised for that flag.
+pub fn pooled_by_flag<A: Send>(
+    n: usize,
+    chunk: usize,
+    flag_of: impl Fn(usize) -> bool + Sync,
+    init: impl Fn() -> A + Sync,
+    body: impl Fn(&mut A, usize) + Sync,
+) -> Vec<A> {
+    let mut out = Vec::new();
+    for flag in [false, true] {
+        let idx: Vec<usize> = (0..n).filter(|i| flag_of(*i) == flag).collect();
+        if idx.is_empty() {
+            continue;
+        }
+        out.extend(pooled(Some(Env::new(flag)), idx.len(), chunk, &init, |acc, k| body(acc, idx[k])));
+    }
+    out
+}
+
+/// Like [`par_fold`]; with `Some(env)` every worker initialises lace for `env` once and serves
+/// [`case`] calls for that environment in place.
+pub fn pooled<A: Send>(
+    env: Option<Env>,
+    n: usize,
+    chunk: usize,
+    init: impl Fn() -> A + Sync,
+    body: impl Fn(&mut A, usize) + Sync,
+) -> Vec<A> {
     let next = AtomicUsize::new(0);
     let nthreads = threads().min(n.max(1));
     let results: Mutex<Vec<(usize, A)>> = Mutex::new(Vec::new());
@@ -157,6 +226,14 @@ pub fn par_fold<A: Send>(
             std::thread::Builder::new()
                 .stack_size(16 << 20)
                 .spawn_scoped(s, move || {
+                    if let Some(env) = env {
+                        if env.init_features {
+                            let features: lace::features::Features =
+                                if env.stack { "stack" } else { "" }.parse().unwrap();
+                            lace::features::init(features);
+                        }
+                        POOL_ENV.with(|p| p.set(Some((env.stack, env.init_features))));
+                    }
                     let mut acc = init();
                     loop {
                         let start = next.fetch_add(chunk, Ordering::Relaxed);
